@@ -13,7 +13,7 @@
      reverse index is modelled without Arc identity: a detached Arc is "no entry");
    * every single-entry section of monitor*, demonitor*, demonitor_all, leave_all is one step;
    * the exit of actor a is a per-actor machine (at most one thread runs the clean-up
-     block of set_status: the fetch_max on the status word admits only the first).
+     block of set_status: the fetch_max on the status word lets in only the first).
    Notifications are not part of this model (they are in Pg/Model.v at the linearization
    point of the locked section). *)
 From Coq Require Import List NArith Bool.
